@@ -1,5 +1,7 @@
 import JSight.RuleOrder
 import JSight.Tie.CMap
+import JSight.CheckRulesThm
+import JSight.CheckRulesTie
 /-!
 # C08 — Check's verdict does not depend on the order of the rules (the part that is a theorem)
 
@@ -13,8 +15,9 @@ compile / check pipeline stays inside this language.
 Exception recorded as known finding K-C08-ref-type-or: `MixedValueNode.AddConstraint` special-cases
 `type` and `or` *at insertion time* (its result depends on what is already in the map), so for a
 type-reference example node the hypothesis "the map is built by Set" does not hold.
-The rule-by-rule applicability table (`C08_check_iff`) is checked against the code with a spec written
-from the statement (harness `c08-rules`), not proved: DESIGN.md §4 C08.
+The rule checker itself is inside the model since the extension phase: `CR.checkRules` (`CheckRules.lean`,
+tied to the real `Check` by `vh c08-model`) against the statement `CR.specOK` (`CheckRulesSpec.lean`):
+`C08_check_iff_partial`, `C08_check_perm` at the end of this file.
 -/
 namespace Props.C08
 open RuleOrder OMap
@@ -50,5 +53,116 @@ def orStep : Prog RK RV :=
 example : eval orStep (build [(.nullable, ⟨false⟩), (.const, ⟨false⟩), (.or, ⟨true⟩), (.typesList, ⟨true⟩)]) = true := by decide
 example : eval orStep (build [(.or, ⟨true⟩), (.typesList, ⟨true⟩), (.nullable, ⟨false⟩), (.const, ⟨false⟩)]) = true := by decide
 example : eval orStep (build [(.or, ⟨true⟩), (.typesList, ⟨true⟩), (.min, ⟨true⟩)]) = false := by decide
+
+/-! ## The rule checker itself: `Check` on the rules of one annotated node = the statement
+
+`CR.checkRules n` transliterates what `Check` does with the rules of one annotated node `n` (kind of the EXAMPLE,
+object property or not, ORDERED list of (rule name, value tree)): rule creation and insertion in the order of the
+annotation — `or` members loaded and compiled on the spot —, `compileNode` step by step, `CompileAllOf`, the
+compatibility check; it returns the FIRST error code in code order (tie: `vh c08-model`, every ordering of every
+generated rule set). `CR.specOK n` is the property text: `Known`, `Once`, `ValuesOK` rule by rule and, on the rule
+SET read as a partial function, `Applies`, `PairsOrdered`, `ExclusiveHasBound`, `PrecisionOnlyDecimal`,
+`FormatExcludesLengthRegex`, `CombinatorsAlone`, `TypeFits`, `EmptyArrayCounts`, `AllOfNamesSomething`. -/
+open CR
+
+/-- Full statement: for every node and every rule list, of any length, values of any size, `or` members included. -/
+def C08_check_iff_full : Prop := ∀ n : Node, n.kind.wf = true → isOk (checkRules n) = specOK n
+
+/-- **C08_check_iff** outside the class around known finding K-C08-ref-type-or (`type` rules on a shortcut node:
+any on a `@t` node, two or more on an `@a | @b` node — `MixedValueNode.AddConstraint` replaces the type constraint
+there instead of rejecting the duplicate): the checker accepts the rules of a node iff they are known, appear
+once, have well-formed values, apply to the node's kind and are mutually consistent. -/
+theorem C08_check_iff_partial (n : Node) (hwf : n.kind.wf = true) (hK : refTypeClass n = false) :
+    isOk (checkRules n) = specOK n := CR.check_iff_partial n hwf hK
+
+/-- the three node families separately (no well-formedness / class hypothesis where none is needed) -/
+theorem C08_check_iff_kinded (n : Node) (hk : n.kind.isShortcut = false) : isOk (checkRules n) = specOK n :=
+  CR.check_iff_base n hk
+
+/-- **C08_check_perm**: the VERDICT is the same for every ordering of the rules inside the annotation (outside the
+same class; the class is closed under reordering). The error CODE may depend on the order: `C08_code_depends_on_order`. -/
+theorem C08_check_perm (n : Node) (rs' : List Rule) (hp : n.rules.Perm rs') (hwf : n.kind.wf = true)
+    (hK : refTypeClass n = false) :
+    isOk (checkRules n) = isOk (checkRules { n with rules := rs' }) := CR.check_perm n rs' hp hwf hK
+
+/-- the specification itself does not see the order (no hypothesis) -/
+theorem C08_spec_perm (n : Node) (rs' : List Rule) (hp : n.rules.Perm rs') :
+    specOK n = specOK { n with rules := rs' } := CR.specOK_perm n rs' hp
+
+/-- the model's applicability table is the code's (`IsJsonTypeCompatible` executed through the hook, every run) -/
+theorem C08_model_compat_is_code : (Gen.compatTable.all fun row =>
+    match ctOfString row.1, jtOfString row.2.1 with
+    | some k, some t => compat k t == row.2.2
+    | _, _ => true) = true := CR.compat_is_table
+
+/-! ### witnesses -/
+
+def bInteger : Bytes := [34, 105, 110, 116, 101, 103, 101, 114, 34]   -- "integer"
+def bString : Bytes := [34, 115, 116, 114, 105, 110, 103, 34]         -- "string"
+def bRefT : Bytes := [34, 64, 116, 34]                                -- "@t"
+def orIntStr : Val := .arr [.lit bInteger, .lit bString]
+
+/-- K-C08-ref-type-or: `@t // {type: "@t", or: ["integer", "string"]}` … -/
+def wTypeOr : Node := { kind := NKind.typeRef [64, 116], isProp := false, rules := [(n_type, Val.lit bRefT), (n_or, orIntStr)] }
+/-- … and the same rules in the other order -/
+def wOrType : Node := { kind := NKind.typeRef [64, 116], isProp := false, rules := [(n_or, orIntStr), (n_type, Val.lit bRefT)] }
+
+def codeOf : Except Code Unit → Option Code
+  | .ok _ => none
+  | .error c => some c
+
+/-- the model reproduces the known finding: accepted in one order, 501 in the other (replayed on the real library
+by `vh c08-model` / `vh c08-rules`, stream `known`) -/
+theorem C08_ref_type_or_order : isOk (checkRules wTypeOr) = true ∧ codeOf (checkRules wOrType) = some 501 := by
+  decide +kernel
+
+/-- the unrestricted statement is false (on the recorded witness the checker accepts a rule set whose `type` rule
+repeats the node's own type reference) -/
+theorem C08_check_iff_full_false : ¬ C08_check_iff_full := by
+  intro h
+  have := h wTypeOr (by decide +kernel)
+  revert this
+  decide +kernel
+
+/-- a second witness in the same class, on an or-shortcut node: `@a | @b // {type: "mixed", type: "mixed"}` is accepted
+although the rule appears twice -/
+def wTwiceRules : List Rule := [(n_type, Val.lit q_mixed), (n_type, Val.lit q_mixed)]
+def wTwice : Node := { kind := NKind.orShortcut [true, true], isProp := false, rules := wTwiceRules }
+theorem C08_once_false_on_orShortcut : isOk (checkRules wTwice) = true ∧ Once wTwice = false := by decide +kernel
+
+/-- the error CODE depends on the order: `5 // {min: "a", foo: 1}` fails with code 0 ("Incorrect number value"),
+`5 // {foo: 1, min: "a"}` with 601 (unknown rule) — the verdict is the same -/
+def wCodeA : Node := { kind := NKind.integer, isProp := false, rules := [(n_min, Val.lit [34, 97, 34]), ([102, 111, 111], Val.lit [49])] }
+def wCodeB : Node := { kind := NKind.integer, isProp := false, rules := [([102, 111, 111], Val.lit [49]), (n_min, Val.lit [34, 97, 34])] }
+theorem C08_code_depends_on_order : codeOf (checkRules wCodeA) = some 0 ∧ codeOf (checkRules wCodeB) = some 601 := by
+  decide +kernel
+
+/-! ### non-vacuity: concrete nodes that meet the hypotheses, on both sides of the verdict -/
+
+/-- `2.5 // {min: 1, max: 3, exclusiveMaximum: true, precision: 1, type: "decimal", nullable: false}` as an object
+property: accepted by the checker and by the statement -/
+def wAcceptRules : List Rule :=
+  [(n_min, Val.lit [49]), (n_max, Val.lit [51]), (n_exclusiveMaximum, Val.lit t_true), (n_precision, Val.lit [49]),
+   (n_type, Val.lit [34, 100, 101, 99, 105, 109, 97, 108, 34]), (n_nullable, Val.lit t_false), (n_optional, Val.lit t_true)]
+def wAccept : Node := { kind := NKind.float, isProp := true, rules := wAcceptRules }
+example : wAccept.kind.wf = true ∧ refTypeClass wAccept = false ∧ isOk (checkRules wAccept) = true ∧ specOK wAccept = true := by
+  decide +kernel
+
+/-- `"a" // {or: [{type: "integer", min: 2, max: 1, exclusiveMinimum: true}, "string"]}` (the shape of the witness of
+fix F-25): rejected (618) by the checker and by the statement — through the member rule-set, which the example does
+not match -/
+def wF25Rules : List Rule :=
+  [(n_or, Val.arr [Val.obj [(n_type, Val.lit bInteger), (n_min, Val.lit [50]), (n_max, Val.lit [49]),
+                            (n_exclusiveMinimum, Val.lit t_true)], Val.lit bString])]
+def wF25 : Node := { kind := NKind.string, isProp := false, rules := wF25Rules }
+example : refTypeClass wF25 = false ∧ codeOf (checkRules wF25) = some 618 ∧ specOK wF25 = false := by decide +kernel
+
+/-- `@t // {or: ["integer", "string"], nullable: true}` on a type shortcut: inside the theorem's domain, accepted -/
+def wRefOr : Node := { kind := NKind.typeRef [64, 116], isProp := false, rules := [(n_or, orIntStr), (n_nullable, Val.lit t_true)] }
+example : refTypeClass wRefOr = false ∧ isOk (checkRules wRefOr) = true ∧ specOK wRefOr = true := by decide +kernel
+
+/-- a permutation instance of `C08_check_perm` -/
+example : isOk (checkRules wAccept) = isOk (checkRules { wAccept with rules := wAccept.rules.reverse }) :=
+  C08_check_perm wAccept _ (List.reverse_perm _).symm (by decide +kernel) (by decide +kernel)
 
 end Props.C08
